@@ -135,3 +135,13 @@ claim("C17",
       "mechanism they share); backend model; capturing logger via set_logger",
       "CrossHair symbolic execution (z3) of the real wrapper + Logger + track_replay over a stateful backend with crash/pagination injection",
       "DESIGN.md §3 C17")
+claim("C16",
+      "Symbolic sizes: the length of every serialized text is a solver variable (json model). Real ChildOperationExecutor: size > 262144 <=> summary (or '') + "
+      "ReplayChildren, else full payload; replay re-traverses the body iff flagged, sends nothing, returns an equal value (also for a single map item / parallel "
+      "branch through the real _execute_item_in_child_context). Real ConcurrentExecutor.replay over all 4^3 branch-record combinations x completion configs "
+      "rebuilds items in order with recorded status/result/error and the policy-derived reason without running a body. Composed wrapper runs: final result "
+      "or error of ANY size around the Lambda limit in BYTES (non-ASCII aware) is recorded as the execution's result (last, synchronous) before an empty-payload "
+      "status; oversized child replayed with zero step re-executions and zero new records.",
+      "json model (length symbolic; ensure_ascii=False texts may take up to 4 bytes/char); backend model; bounds: 3 branches, one oversized context per run",
+      "CrossHair symbolic execution (z3) of the real child/executor/wrapper code with solver-chosen serialized sizes",
+      "DESIGN.md §3 C16")
